@@ -90,6 +90,14 @@ T = {
  "C26-r2m2": ("C26", "collect_fields returns (instead of continuing) at an already visited fragment spread", "the same fragment reached twice in one selection set with more selections after the second spread", ""),
  "C17-r2m1": ("C17", "same_output_type_shape: `is_composite(a) || is_composite(b)` instead of `&&`", "same response name under two non-overlapping object type conditions, one a leaf and the other composite", ""),
  "C17-r2m2": ("C17", "is_variable_usage_allowed_at step 3.d checks assignability in the wrong direction", "nullable list variable with a default in a non-null list position whose item nullability differs", ""),
+ "C14-r2m1": ("C14", "validate_implements_interfaces: the implemented name only has to be a defined type (contains_key) instead of an interface", "`implements` naming a defined object / union / scalar / enum / input type", ""),
+ "C14-r2m2": ("C14", "is_valid_implementation_field_type: (List, NonNullList) alternative dropped", "interface field with a nullable list implemented by a non-null list at that level", ""),
+ "C25-r2m1": ("C25", "fragment memo stores the absolute depth of the first spread", "fragment spread twice, the first spread below a list field", ""),
+ "C25-r2m2": ("C25", "depth reached inside an inline fragment is not folded into max_depth", "named fragment whose list fields sit inside an inline fragment, spread twice", ""),
+ "C27-r2m1": ("C27", "list items pulled with ready_chunks(16), index derived from the chunk number", "async list stream pending between two items at a position that is not a multiple of 16, plus a field error at a later item (wrong errors[].path)", ""),
+ "C27-r2m2": ("C27", "Normal mode: completing item i is joined with fetching item i+1", "list of objects, a resolver inside a non-last item pending once, an observable lazy item producer", ""),
+ "C28-r2m1": ("C28", "single value for a nested list type wrapped only once", "`[[Int]]` given `1`", ""),
+ "C28-r2m2": ("C28", "unknown input-object key scan only runs if the object has more keys than the type has fields", "object with an undeclared key that omits at least as many declared fields", ""),
  "C33-m2": ("C33", "collect_fields: a fragment spread's fields replace nothing but are not merged into an already collected key", "same composite response key twice, the later occurrence from a named fragment with an extra sub-field", ""),
 }
 
